@@ -407,6 +407,7 @@ def build_unit(unit, outdir):
             dropped = [k for k in kids if k not in fns]
             if dropped:
                 log.append("methods not extracted in this unit: " + ", ".join(dropped))
+            _check_known_methods(file, header, kids)
             # associated types etc. inside the block
             inherent = emit_header is not None and " for " not in emit_header
             for c_text in _assoc_types(sf, it):
@@ -443,6 +444,7 @@ def build_unit(unit, outdir):
             dropped = [k for k in kids if k not in fns]
             if dropped:
                 log.append("methods not extracted in this unit: " + ", ".join(dropped))
+            _check_known_methods(file, "macro " + macro_name, kids)
             em.drops.append({"item": emit_header, "file": file, "drops": log})
             em.add("}\n\n")
     em.add("\n// vacuity canary: must be reported as failing on every run\nproof fn vx_canary()\n    ensures false\n{\n}\n")
@@ -453,6 +455,25 @@ def build_unit(unit, outdir):
     open(path, "w").write("".join(em.text))
     em.path = path
     return em
+
+
+_KNOWN = None
+def _check_known_methods(file, header, kids):
+    """Every method of an extracted trait / impl block is either under contract in some unit or on
+    the committed list of methods decided elsewhere (contracts/known_methods.json: Kani obligations,
+    or outside every property).  A method that is on neither - e.g. a newly added override of a
+    provided trait method (seed C09-9: `Iterator::nth` for IntoIter) - has no contract at all:
+    undecided, never silently ignored.  The list is never written at run time."""
+    global _KNOWN
+    if _KNOWN is None:
+        p = os.path.join(os.path.dirname(os.path.dirname(os.path.abspath(__file__))), "contracts", "known_methods.json")
+        _KNOWN = json.load(open(p)) if os.path.exists(p) else {}
+    key = "%s :: %s" % (file, " ".join(header.split()))
+    if key not in _KNOWN:
+        return
+    new = [k for k in kids if k not in _KNOWN[key]]
+    if new:
+        raise InfraError("method(s) without any contract in `%s` (%s): %s - add a contract or list them in contracts/known_methods.json with the obligation that decides them" % (header, file, ", ".join(new)))
 
 
 def _assoc_types(sf, it):
